@@ -4,7 +4,6 @@ import (
 	"context"
 	"flag"
 	"fmt"
-	"go/types"
 	"os"
 	"sort"
 	"strings"
@@ -265,23 +264,11 @@ var debugKeys func(p *Prog, sub string)
 var skipReplay bool
 
 func listMapRanges(p *Prog) {
-	var keys []string
-	for k, fn := range p.funcs {
-		if !p.inRepo(fn) || fn.Blocks == nil {
-			continue
-		}
-		for _, b := range fn.Blocks {
-			for _, ins := range b.Instrs {
-				if r, ok := ins.(*ssa.Range); ok {
-					if _, isMap := r.X.Type().Underlying().(*types.Map); isMap {
-						keys = append(keys, fmt.Sprintf("%s  %s", k, p.fset.Position(r.Pos())))
-					}
-				}
-			}
-		}
+	obls, notes := p.mapRangeCoverage("C13", nil)
+	for _, o := range obls {
+		fmt.Println(o.Name, o.Pos, o.Result)
 	}
-	sort.Strings(keys)
-	for _, k := range keys {
-		fmt.Println(k)
+	for _, n := range notes {
+		fmt.Println("note:", n)
 	}
 }
